@@ -271,6 +271,7 @@ func executeFaults(k *FaultCase, r *FaultRun) (obs []FlushObs, crash string) {
 		// a dump error comes after the whole aggregation ran: the oracle is complete
 		fo.Rejected = fo.Err == 2
 		deriveOracle(&fo.BatchObs, rt.events, len(batch) == 0, n, nE, nC)
+		observeSettle(&fo.BatchObs, rt, len(batch), n, nE, nC)
 		fo.Mem = canonical(st.VerifAggregation())
 		fo.Disk, fo.DiskErr = readDisk(path)
 		obs = append(obs, fo)
@@ -291,7 +292,7 @@ func coqFaults(k *FaultCase) string {
 	e := &encoder{}
 	recs := []int64{int64(len(k.Records))}
 	for _, r := range k.Records {
-		recs = append(recs, e.s(r.Method), e.s(r.URL), int64(r.Status), int64(r.Dur), int64(r.TDur), r.TS,
+		recs = append(recs, e.s(r.Method), e.s(r.URL), encStatus(r.Status), int64(r.Dur), int64(r.TDur), r.TS,
 			e.s(r.Cons), e.s(r.Icpt), b2i(r.Internal))
 	}
 	runs := []int64{int64(len(k.Runs))}
@@ -589,6 +590,14 @@ func faultCorpus() []FaultCase {
 			{Cuts: []int{2, 5, 6}, Restart: []bool{false, false, true}, Fail: []int{0, 1, 0, 0}},
 			{Cuts: []int{2, 5}, Restart: []bool{false, false}, Fail: []int{1, 1, 1}},
 			{Cuts: []int{2, 5, 6}, Restart: []bool{false, false, true}, Fail: []int{2, 1, 2, 0}},
+		}},
+		// status values that are not HTTP status codes, through failing writes and restarts
+		{Threshold: 50, Records: []Rec{rec(200, 0), rec(-1, 1000), rec(200, 2000), rec(404, 3000), rec(0, 4000), rec(-1, 5000),
+			rec(999, 6000), rec(200, 7000), rec(600, 8000), rec(99, 9000)}, Runs: []FaultRun{
+			{Cuts: []int{3, 8}, Restart: []bool{false, false}, Fail: []int{0, 0, 0}},
+			{Cuts: []int{3, 8}, Restart: []bool{true, true}, Fail: []int{0, 0, 0}},
+			{Cuts: []int{3, 8}, Restart: []bool{false, true}, Fail: []int{0, 1, 0}},
+			{Cuts: []int{1, 5, 10}, Restart: []bool{false, false, true}, Fail: []int{2, 0, 0, 0}},
 		}},
 	}
 }
